@@ -254,7 +254,13 @@ def _str_escape(s: str) -> str:
     return s
 
 def _bytes_escape(b: bytes) -> str:
-    return repr(b)[2:-1]
+    r = repr(b)
+    escaped = r[2:-1]
+    if r[1] == '"':
+        # repr() chose double quotes because the value contains simple quotes only;
+        # we always display bytes inside simple quotes, so they must be escaped.
+        escaped = escaped.replace("'", "\\'")
+    return escaped
 
 class PyvalColorizer:
     """
